@@ -7,7 +7,7 @@ FUNCS = ['RangeProof::prove_with_rng (MIR regions: head checks, value guard loop
 
 def cases(tier):
     out = []
-    cfgs = [(8, 1, 1, 1), (4, 4, 4, 2), (2, 2, 4, 1), (64, 2, 2, 1), (2, 8, 8, 1)] if tier == 'quick' else [(8, 1, 1, 1), (4, 4, 4, 2), (2, 2, 4, 1), (64, 2, 2, 1), (1, 8, 8, 1), (16, 4, 4, 3), (32, 2, 2, 6), (8, 8, 8, 2)]
+    cfgs = [(8, 1, 1, 1), (4, 4, 4, 2), (2, 2, 4, 1), (64, 2, 2, 1), (2, 8, 8, 1), (4, 1, 2, 6)] if tier == 'quick' else [(8, 1, 1, 1), (4, 4, 4, 2), (2, 2, 4, 1), (64, 2, 2, 1), (1, 8, 8, 1), (16, 4, 4, 3), (32, 2, 2, 6), (8, 8, 8, 2)]
     for (n, m, cap, x) in cfgs:
         maxv = (1 << n) - 1
         def add(name, valid, **kw):
